@@ -508,6 +508,16 @@ class Gen:
         r = self.r("pval")
         if caps and r.random() < (0.3 if is_node(val) else 0.15):
             return {"t": "var", "name": r.choice(caps)}
+        if r.random() < 0.05:
+            # a spec of another kind than the value: a sequence / [] / None / nested pattern / regex against a value
+            # that is none of these (never a sequence spec against a str: whether a str counts as a sequence is not
+            # settled by the statement)
+            anynode = {"t": "node", "p": {"cls": "*", "fields": []}}
+            opts: list[dict[str, Any]] = [{"t": "none"}, {"t": "empty"}, anynode, {"t": "re", "src": r.choice([".*", "", "\\(", "None", "[A-Z]"])}]
+            if not isinstance(val, str):
+                opts += [{"t": "seq", "elems": [], "tail": True}, {"t": "seq", "elems": [{"v": anynode}], "tail": r.random() < 0.5}]
+            self.w.stats.probes["spec_of_other_kind"] += 1
+            return r.choice(opts)
         if is_node(val):
             if depth <= 0 or r.random() < 0.15:
                 return {"t": "node", "p": {"cls": "*" if r.random() < 0.5 else [RW.cname(val)], "fields": []}}
@@ -527,6 +537,8 @@ class Gen:
                 if r.random() < 0.3:
                     e["cap"] = self.newcap()
                     caps.append(e["cap"])
+                if e["v"]["t"] in ("seq", "empty"):  # the grammar has no sequence inside a sequence
+                    e["v"] = {"t": "none"}
                 elems.append(e)
             if not elems and not tail:
                 return {"t": "empty"}
